@@ -55,11 +55,11 @@ add(tok("lsn_nonorth", "lsn", nonorth(SN)), Q)
 add(tok("lsn_neg_nonorth", "lsn", nonorth(SN), sign=-1.0), Q)
 add(dict(name="circ", kind="circular", options=dict(number_of_processors=1, nx_core=4, ny_total=8)), Q)
 # thorough-only members
-add(tok("usn", "usn", SN, options=dict(ny_inner_divertor=3, ny_sol=8, ny_outer_divertor=5)), Q)
+add(tok("usn", "usn", SN, options=dict(ny_inner_divertor=3, ny_sol=8, ny_outer_divertor=5, target_outer_upper_poloidal_spacing_length=0.2, target_inner_upper_poloidal_spacing_length=0.4)), Q)
 add(tok("udn", "udn", DN), Q)
 add(tok("ldn", "ldn", DN))
 add(tok("udn2", "udn2", DN))
-add(tok("cdn_neg", "cdn", CDN, sign=-1.0))
+add(tok("cdn_neg", "cdn", CDN, sign=-1.0), Q)
 add(tok("lsn_unequal", "lsn", SN, options=dict(ny_inner_divertor=3, ny_sol=10, ny_outer_divertor=6, nx_core=3, nx_sol=5, y_boundary_guards=1)))
 add(tok("lsn_g0", "lsn", SN, options=dict(y_boundary_guards=0)))
 add(tok("lsn_dct", "lsn", SN, options=dict(psi_interpolation_method="dct")))
@@ -70,7 +70,6 @@ add(tok("cdn_nonorth", "cdn", nonorth(CDN)))
 add(tok("lsn_revBt", "lsn", SN, fpol_sign=-1.0))
 add(tok("lsn_fine", "lsn", SN, options=dict(finecontour_Nfine=200)))
 add(tok("lsn_upper_outer", "lsn", SN, options=dict(start_at_upper_outer=True)))
-add(tok("udn_m", "udn_m", DN, mirror=True))
 add(tok("udn_uo", "udn", DN, options=dict(start_at_upper_outer=True)))
 add(tok("cdn_uo", "cdn", CDN, options=dict(start_at_upper_outer=True)))
 add(tok("lsn_xy", "lsn", SN, options=dict(curvature_type="curl(b/B) with x-y derivatives")), Q)
@@ -82,6 +81,17 @@ add(tok("lsn_psi0", "lsn", SN, psi_offset=-0.764, options=dict(psi_pf_lower=0.0)
 add(tok("lsn_rev3", "lsn", SN, options=dict(reverse_current=True, reverse_Bt=True, psi_divide_twopi=True)), Q)
 add(tok("lsn_extrap", "lsn", SN, profile_grid="sep", psi_sol_norm=1.2, options=dict(extrapolate_profiles=True)), Q)
 add(tok("udn_neg", "udn", DN, sign=-1.0))
+# mirror / reversal partners (C16)
+add(tok("lsn_35", "lsn", SN, options=dict(ny_inner_divertor=3, ny_sol=8, ny_outer_divertor=5, target_outer_lower_poloidal_spacing_length=0.2, target_inner_lower_poloidal_spacing_length=0.4)), Q)
+add(tok("udn_m", "udn_m", DN, mirror=True), Q)
+add(tok("cdn_sym", "cdn", CDN), Q)
+add(tok("lsn_direct3", "lsn", SN, sign=-1.0, scale=0.15915494309189535, fpol_sign=-1.0), Q)
+add(tok("lsn_revBt_opt", "lsn", SN, options=dict(reverse_Bt=True)))
+DNSZ = dict(target_outer_lower_poloidal_spacing_length=0.2, target_inner_upper_poloidal_spacing_length=0.4, ny_inner_lower_divertor=3, ny_inner_upper_divertor=5, ny_outer_lower_divertor=6, ny_outer_upper_divertor=4, ny_inner_sol=5, ny_outer_sol=6)
+DNSZ_M = dict(target_outer_upper_poloidal_spacing_length=0.2, target_inner_lower_poloidal_spacing_length=0.4, ny_inner_lower_divertor=5, ny_inner_upper_divertor=3, ny_outer_lower_divertor=4, ny_outer_upper_divertor=6, ny_inner_sol=5, ny_outer_sol=6)
+add(tok("udn_sz", "udn", DN, options=DNSZ))
+add(tok("udn_m_sz", "udn_m", DN, mirror=True, options=DNSZ_M))
+add(tok("udn2_m", "udn2_m", DN, mirror=True))
 # regridding histories (C15, C03): the final settings of *_regrid equal the settings of *_fresh
 RG1 = dict(nonorthogonal_target_all_poloidal_spacing_length=0.5, nonorthogonal_xpoint_poloidal_spacing_length=0.03, nonorthogonal_target_all_poloidal_spacing_range=0.05)
 RG2 = dict(nonorthogonal_xpoint_poloidal_spacing_range=0.01, nonorthogonal_target_all_poloidal_spacing_range_outer=0.3)
